@@ -123,15 +123,17 @@ def run(ctx):
         ctx.ob("C12.G.result-meta-keeps-value", f.key, "T succeeds => Ok(Ok(value))", passing == ["core::result::Result::Ok{core::result::Result::Ok{(%s as Ok).0}}" % src], "cases %s" % cs)
     f = ctx.fn("<darling_core::util::with_original::WithOriginal<T, syn::attr::Meta> as %s>::from_meta" % FM)
     if f:
-        news = ctx.find_calls(f, r"WithOriginal::<T, O>::new$")
-        ok = len(news) == 1 and re.search(r"Clone.*::clone\(a1\)$|clone\(a1\)$", ctx.expr(f, news[0][1]["args"][1])) is not None and "FromMeta::from_meta(a1)" in ctx.expr(f, news[0][1]["args"][0])
-        ctx.ob("C12.G.with-original-stores-clone", f.key, "new(T::from_meta(value)?, value.clone())", ok, "%s" % [[ctx.expr(f, a)[:100] for a in t["args"]] for _, t in news])
+        cs = resalg.cases(ctx, f)
+        good = [v for c, v in cs if v.startswith("core::result::Result::Ok{")]
+        ok = bool(good) and all(re.match(r"^core::result::Result::Ok\{darling_core::util::with_original::WithOriginal::<T, O>::new\(\(.*FromMeta::from_meta\(a1\) as Ok\)\.0, [^()]*clone\(a1\)\)\}$", v) for v in good)
+        ctx.ob("C12.G.with-original-stores-clone", f.key, "new(T::from_meta(value)?, value.clone())", ok, "%s" % [v[:200] for v in good])
     f = ctx.fn("<darling_core::util::spanned_value::SpannedValue<T> as %s>::from_meta" % FM)
     if f:
         spans = {}
-        for blk, t in ctx.find_calls(f, r"Spanned>::span$|spanned::Spanned::span$"):
-            arg = ctx.expr(f, t["args"][0])
-            for d in ctx.pc_strs(f, blk):
+        for _, t, ow in ctx.find_calls_deep(f, r"Spanned>::span$|spanned::Spanned::span$", helpers=1):
+            arg = ctx.expr(ow, t["args"][0])
+            blk = [b_ for b_, t_ in ow.calls() if t_ is t][0]
+            for d in ctx.pc_strs(ow, blk):
                 for a in d:
                     m = re.match(r"^discr\(a1\)=(\w+)$", a)
                     if m:
